@@ -2,7 +2,28 @@
 
 package optionreflect
 
+import "google.golang.org/protobuf/reflect/protoreflect"
+
 // Verification hooks (overlay only, never committed to the repository): expose the unexported
 // text-format string kernel to the C05 harness.
 
 func VerifPrototextString(in string) string { return prototextString(in) }
+
+type verifIdx struct {
+	protoreflect.FieldDescriptor
+	idx int
+}
+
+func (v verifIdx) Index() int { return v.idx }
+
+// VerifLocLess evaluates the real optionsByLocation.Less on two options.
+func VerifLocLess(aHas bool, aLine int32, aIdx int, bHas bool, bLine int32, bIdx int) bool {
+	mk := func(has bool, line int32, idx int) *OptionDefinition {
+		o := &OptionDefinition{Desc: verifIdx{idx: idx}}
+		if has {
+			o.SourceLocation = &OptionSourceLocation{StartLine: line}
+		}
+		return o
+	}
+	return optionsByLocation{mk(aHas, aLine, aIdx), mk(bHas, bLine, bIdx)}.Less(0, 1)
+}
